@@ -50,7 +50,7 @@ Fixpoint increasing (l : list N) : bool :=
 (* executions that are new in [cur]: their queue had none in [prev], or the action ended
    the one it had *)
 Definition ended_queue (a : action) : option N :=
-  match a with Finish q _ => Some q | _ => None end.
+  match a with Finish q _ | FinishWait q => Some q | _ => None end.
 Definition new_execs (a : action) (prev cur : sobs) : list eobs :=
   filter (fun e => match find_e (eo_queue e) (so_execs prev) with
                    | None => true
